@@ -40,20 +40,35 @@ func c13Token(q *UpQuery) string {
 }
 
 func TestVfC13Framing(t *testing.T) {
-	st := vfkit.Stats("TestVfC13Framing", "k in 1..60 pipelined queries of 17 B..4 KiB (one near-64 KiB class) on tcp / gnet / tls listeners, byte stream cut by a drawn segmentation plan (inside the 2-octet prefix, inside bodies, several frames per segment, 1-octet segments, optional 1-3 ms pauses), per-query upstream delays (concurrent, out-of-order completion), responses of 17-60 KiB for a quarter of the queries of small batches (several of them completing together), max_concurrent_queries in {default,1,2,5} with gated upstream replies, in one case of three preceded by 1-6 connections that die in the middle of a frame; oracle: return stream is exactly k frames whose prefixes equal their body lengths, each body decodes, response IDs = query IDs as multisets, each answer belongs to its own query, exactly k-max REFUSED when the limit is exceeded; non-trivial = a cut inside a prefix or body with k >= 2, or the limit exceeded")
+	st := vfkit.Stats("TestVfC13Framing", "k in 1..60 pipelined queries of 17 B..4 KiB (one near-64 KiB class) on tcp / gnet / tls listeners, byte stream cut by a drawn segmentation plan (inside the 2-octet prefix, inside bodies, several frames per segment, 1-octet segments, optional 1-3 ms pauses), per-query upstream delays (concurrent, out-of-order completion), responses of 17-60 KiB for a quarter of the queries of small batches (several of them completing together; one in four of those fills a frame up to 0-10 octets before the proxy adds the OPT of an EDNS client), max_concurrent_queries in {default,1,2,5} with gated upstream replies, in one case of three preceded by 1-6 connections that die in the middle of a frame; oracle: return stream is exactly k frames whose prefixes equal their body lengths, each body decodes, response IDs = query IDs as multisets, each answer belongs to its own query, exactly k-max REFUSED when the limit is exceeded; non-trivial = a cut inside a prefix or body with k >= 2, or the limit exceeded")
 	defer vfkit.Flush()
 	env := &c13Env{proxies: map[int]*Proxy{}, ips: map[int]string{}}
 	block := NextIPBlock()
 	up, err := StartUpstream("tcp", "up", block+"2", 0, nil, func(q *UpQuery) UpAction {
 		tok := c13Token(q)
 		km := KeyedAnswer(q.Msg, "c13", 0, 60, 0)
-		if n, ok := env.bigs.Load(tok); ok {
+		var ceilingReply []byte
+		if n, ok := env.bigs.Load(tok); ok && n.(int) < 0 {
+			// a reply that fills a frame to the last octets (65535 - delta in its compressed form, one record owned by the
+			// root, so no encoder makes it shorter): with the OPT the proxy owes an EDNS client it no longer fits in one frame
+			delta := -n.(int) - 1
+			km.Ar = append(km.Ar, vfkit.RR{Owner: vfkit.Name{}, Type: 65280, Class: 1, TTL: 60, RData: []vfkit.RDPart{{Raw: nil}}})
+			packed, _ := vfkit.Encode(km, vfkit.EncOpts{Compress: func() bool { return true }})
+			km.Ar[len(km.Ar)-1].RData = []vfkit.RDPart{{Raw: bytes.Repeat([]byte{0x5a}, 65535-delta-len(packed))}}
+			ceilingReply, _ = vfkit.Encode(km, vfkit.EncOpts{Compress: func() bool { return true }})
+			if len(ceilingReply) != 65535-delta {
+				vfkit.Inconclusive("C13: the harness built a ceiling reply of %d octets instead of %d", len(ceilingReply), 65535-delta)
+			}
+		} else if ok {
 			// a response of tens of KiB: larger than one TLS record, one socket buffer or any internal write chunk
 			for i := 0; i < n.(int); i++ {
 				km.Ar = append(km.Ar, vfkit.RR{Owner: km.Q[0].Name, Type: 65280, Class: 1, TTL: 60, RData: []vfkit.RDPart{{Raw: bytes.Repeat([]byte{byte(i)}, 1000)}}})
 			}
 		}
 		a := UpAction{Reply: EncodeMsg(km)}
+		if ceilingReply != nil {
+			a.Reply = ceilingReply
+		}
 		if g, ok := env.gates.Load(tok); ok {
 			a.Gate = g.(chan struct{})
 		}
@@ -98,7 +113,7 @@ func TestVfC13Framing(t *testing.T) {
 			wire []byte
 		}
 		qs := make([]qinfo, k)
-		bigResponses := 0
+		bigResponses, ceiling := 0, 0
 		var stream []byte
 		var bounds []int // frame start offsets
 		for i := range qs {
@@ -120,6 +135,12 @@ func TestVfC13Framing(t *testing.T) {
 			if k <= 12 && rapid.IntRange(0, 3).Draw(t, "bigResponse") == 0 {
 				env.bigs.Store(tok, rapid.IntRange(17, 60).Draw(t, "bigKiB"))
 				bigResponses++
+				if rapid.IntRange(0, 3).Draw(t, "atTheCeiling") == 0 {
+					// the upstream's reply fills a frame up to 0-10 octets, and the client speaks EDNS
+					env.bigs.Store(tok, -1-rapid.IntRange(0, 10).Draw(t, "octetsBelow65535"))
+					m.Ar = append(m.Ar, vfkit.RR{Type: 41, Class: 4096, RData: []vfkit.RDPart{{Raw: []byte{}}}})
+					ceiling++
+				}
 			}
 			qs[i] = qinfo{id: m.ID, name: name, tok: tok, wire: EncodeMsg(m)}
 			bounds = append(bounds, len(stream))
@@ -300,7 +321,7 @@ func TestVfC13Framing(t *testing.T) {
 			case 5:
 				refused++
 			default:
-				t.Fatalf("unexpected rcode %d; %s", f.Msg.Rcode(), desc)
+				t.Fatalf("unexpected rcode %d; %s\n%s", f.Msg.Rcode(), desc, tail(env.proxies[mc].Stderr(), 1500))
 			}
 		}
 		for _, q := range qs {
@@ -326,6 +347,9 @@ func TestVfC13Framing(t *testing.T) {
 		}
 		if nAbort > 0 {
 			classes = append(classes, "after-aborted-connections")
+		}
+		if ceiling > 0 {
+			classes = append(classes, "response-at-the-65535-ceiling")
 		}
 		if bigResponses >= 2 {
 			classes = append(classes, "concurrent-big-responses")
